@@ -23,7 +23,7 @@ def gen(maxln, depth, fixed="1", timeout=3400, sound="0"):
         seen[json.dumps(s, sort_keys=True)] = s
     log("[tlc] Gen_Stark maxln=%s depth=%s: %d distinct states, %d statements, %.1fs%s" % (
         maxln, depth, r.distinct, len(seen), r.wall, "" if r.ok else " ** " + str(r.violation)))
-    return r, list(seen.values())
+    return r, [seen[k] for k in sorted(seen)]
 
 
 def run_scenarios(exe, mode, scs, wd, name, timeout=3400):
